@@ -149,6 +149,10 @@ func (c *recursionChecker) check(node ischema.Node, types map[string]ischema.Typ
 	case *ischema.ObjectNode:
 		required := requiredKeys(node)
 		for i, n := range node.Children() {
+			if node.Key(i).IsShortcut {
+				// A key shortcut stands for any number of properties, none included.
+				continue
+			}
 			if _, ok := required[node.Key(i).Key]; !ok {
 				// Not a required property (keys can be optional by default).
 				continue
